@@ -13,12 +13,14 @@ from ..symex import Executor, Ptr, bv, is_c
 from ..llir import PtrT, IntT
 
 BOUNDS = ('allocate: every n in [0, 2^64), T in {char, int32_t, double, 32-byte struct}, Align in {8,16,32,64,4096}; posix_memalign/free as contract stubs; '
-          'is_aligned: every pointer value, archs sse2/avx/avx512f; get_alignment_offset: every pointer, every size < 2^64, every power-of-two block_size <= 64, T in {char,int32,double}')
+          'is_aligned: every pointer value, archs sse2/avx/avx512f; get_alignment_offset: every pointer, every size < 2^64, every power-of-two block_size <= 64, T in {char,int32,double,32-byte struct of alignment 1,std::complex<double>}')
 ASSUMPTIONS = ['posix_memalign contract (POSIX): on success *memptr is a multiple of alignment and addresses size bytes; on failure *memptr is unchanged (glibc) ',
                'free(p) releases exactly the block p', 'clang-14 -O1 -fexceptions lowering is correct']
 
 TYPES = [('c', 'char', 1), ('i', 'int32_t', 4), ('d', 'double', 8), ('s', 'S32', 32)]
 ALIGNS = [8, 16, 32, 64, 4096]
+# get_alignment_offset: element types with alignof(T) == sizeof(T) and with alignof(T) < sizeof(T) (seed C18-1 confused the two)
+GAO_TYPES = TYPES + [('z', 'std::complex<double>', 16)]
 ARCHS = [('sse2', 'xsimd::sse2', 16), ('avx', 'xsimd::avx', 32), ('avx512f', 'xsimd::avx512f', 64)]
 
 
@@ -34,7 +36,7 @@ def source():
             out.append('W bool ne_%d_%d(){ return xsimd::aligned_allocator<double,%d>() != xsimd::aligned_allocator<double,%d>(); }' % (a, b, a, b))
     for nm, ca, al in ARCHS:
         out.append('W bool isal_%s(void const* p){ return xsimd::is_aligned<%s>(p); }' % (nm, ca))
-    for t, ct, sz in TYPES[:3]:
+    for t, ct, sz in GAO_TYPES:
         out.append('W size_t gao_%s(const %s* p, size_t size, size_t block){ return xsimd::get_alignment_offset(p, size, block); }' % (t, ct))
     return '\n'.join(out) + '\n'
 
@@ -133,7 +135,7 @@ def main(tier, seed):
         S.prove('is_aligned<%s>(p) <=> p mod %d == 0' % (nm, al), [], r == (z3.URem(p, z3.BitVecVal(al, 64)) == 0), witness=False,
                 replay=lambda m, rdir, nm=nm, p=p, al=al: isal_replay(S, nm, m.eval(p, model_completion=True).as_long(), al, rdir))
     # ---------------- get_alignment_offset
-    for t, ct, sz in TYPES[:3]:
+    for t, ct, sz in GAO_TYPES:
         ex = Executor(mod); p = z3.BitVec('p', 64); size = z3.BitVec('size', 64); block = z3.BitVec('block', 64)
         # block_size 1 with a pointer that is not a multiple of sizeof(T) is outside the claim: the library defines the answer as 0
         # there ("scalar blocks need no alignment"), and such a pointer is not a valid T* anyway
@@ -161,17 +163,29 @@ def main(tier, seed):
 def alloc_replay(S, t, ct, sz, al, n):
     def fn(m, rdir):
         nv = m.eval(n, model_completion=True).as_long()
+        # the replay program interposes posix_memalign (the executable's definition wins over libc's) to observe the size the allocator
+        # really asks for: a pointer returned for a block smaller than n*sizeof(T) reproduces the violation
         main = r'''
 #include <cstdio>
+#include <cstdlib>
 #include <new>
-int main(){ size_t n = %dULL; try { %s* p = alloc_%s_%d(n); std::printf("ptr %%d\n", p != nullptr); } catch (std::bad_alloc&) { std::printf("bad_alloc\n"); } return 0; }
+static unsigned long long g_req = 0;
+extern "C" int posix_memalign(void** p, size_t al, size_t size) noexcept {
+  g_req = size;
+  if (size > (1ULL << 34)) return 12;
+  void* q = aligned_alloc(al, size ? ((size + al - 1) / al * al) : al);
+  if (!q) return 12;
+  *p = q; return 0;
+}
+int main(){ size_t n = %dULL; try { %s* p = alloc_%s_%d(n); std::printf("ptr %%d req %%llu\n", p != nullptr, g_req); } catch (std::bad_alloc&) { std::printf("bad_alloc\n"); } return 0; }
 ''' % (nv, ct, t, al)
         out, why = S.native('alloc', main, rdir, fexc=True)
         info = dict(inputs=dict(n=nv, T=ct, Align=al), why=why, native=out)
         if out is None: return None, info
-        overflow = nv * sz >= 1 << 64
-        # a pointer returned although n*sizeof(T) is not representable: the block cannot hold n objects
-        return (out.startswith('ptr') and overflow), info
+        if not out.startswith('ptr 1'): return False, info
+        req = int(out.split('req')[1].strip())
+        # a pointer returned although the block asked from the system cannot hold n objects (n*sizeof(T) in unbounded arithmetic)
+        return (req < nv * sz), info
     return fn
 
 
